@@ -97,6 +97,28 @@ def _c10(tier):
 CHECKS["C10"] = _c10
 
 
+def _c13(tier):
+    t0 = time.time()
+    res = Results("C13")
+    li = build.build_lib("plain"); exe = build.build_harness(li, "handlers", ["handlers.c"])
+    jobs = [("handlers/%d" % i, [exe, "--prop", "C13", "--tier", tier, "--seed", str(seed() * 16 + i), "--cfg", "plain"]) for i in range(4 if tier == "thorough" else 1)]
+    run_workers(jobs, res)
+    res.evaluations = res.counters.get("operations", 0) + res.counters.get("concurrent_ops", 0)
+    return finish(res, tier, "exploration",
+                  "histories of registrations (set_/thrd_set_ x str/mem x {8 probes, NULL}), violating calls and thread creations executed by real threads and checked "
+                  "step by step against a sequential model: (1) ALL histories of length 3 (quick) / 4 (thorough) over 14 operations x 2 threads, each closed by 4 probing "
+                  "violations; (2) random histories of 5..60 operations over up to 7 threads created by workers; (3) 8 threads concurrently registering thread-local handlers and "
+                  "violating; distinct = (kind, thread-local state, global state, thread role, handler that ran)", t0,
+                  extra_cov=dict(builds=["plain"], harnesses=["handlers"], exhaustive=False, exhaustive_subspace="phase 1 short histories",
+                                 inheritance_by_created_threads=dict(observed=res.counters.get("inheritance_observed", 0), not_observed=res.counters.get("no_inheritance_observed", 0))),
+                  assumptions=["global registrations are serialised by the driver (an unsynchronised global registration racing a violation is not excluded by the statement)",
+                               "whether a created thread inherits its creator's thread-local handler is left open: both accepted, the observed behaviour is recorded"],
+                  min_evals=1000)
+
+
+CHECKS["C13"] = _c13
+
+
 def _c14(tier):
     t0 = time.time()
     res = Results("C14")
